@@ -500,26 +500,43 @@ pub fn big_records_case(rng: &mut Rng, variant: u64, thorough: bool) -> (Case, b
     let mut ok = true;
     match variant {
         0 => {
-            let n = *rng.pick(&[65_534u32, 65_535, 65_535, 65_536, 65_536, 65_537, 70_000]);
-            // m = 0: no record of the kind is linked to any term - its ic is 0 everywhere, also
-            // beyond the limit (nothing is converted)
-            let m = *rng.pick(&[0u32, 1, 3]);
-            // first, in the same case: records beyond the limit with NO link at all (ic 0 everywhere)
+            // three programs in the case: (a) beyond the limit with NO link at all (ic 0 everywhere,
+            // nothing is converted); (b) exactly at / just below the limit with links; (c) beyond the
+            // limit with links (last, judged by predicate)
+            let prelude = |c: &mut Case| {
+                c.op("new".to_string());
+                for (id, nm) in [(1u32, "All"), (118, "Phenotypic abnormality"), (2, "x"), (3, "y")] {
+                    c.op(format!("term {} {}", id, name(nm)));
+                }
+                c.op("complete".to_string());
+                for (p, ch) in [(1u32, 118u32), (118, 2), (118, 3)] {
+                    c.op(format!("parent {p} {ch}"));
+                }
+                c.op("connect".to_string());
+            };
+            // (a) - the prelude of the caller is already in place
             c.op(format!("bulkrec {} 500000 {} {}", KINDS[k], *rng.pick(&[65_536u32, 70_000]), name("unlinked")));
             c.op(format!("ann {} 9 {} 3", KINDS[(k + 1) % 3], name("other kind")));
             c.op("ic".to_string());
             c.op("build def 7".to_string());
             c.op("tdump 7".to_string());
             c.op("oracle ic 7".to_string());
-            c.op("new".to_string());
-            for (id, nm) in [(1u32, "All"), (118, "Phenotypic abnormality"), (2, "x"), (3, "y")] {
-                c.op(format!("term {} {}", id, name(nm)));
+            // (b)
+            prelude(&mut c);
+            let nb = *rng.pick(&[65_534u32, 65_535, 65_535]);
+            let mb = *rng.pick(&[1u32, 3]);
+            for i in 0..mb {
+                c.op(format!("ann {} {} {} {}", KINDS[k], 10 + i, name("linked"), if i == 0 { 2 } else { 3 }));
             }
-            c.op("complete".to_string());
-            for (p, ch) in [(1u32, 118u32), (118, 2), (118, 3)] {
-                c.op(format!("parent {p} {ch}"));
-            }
-            c.op("connect".to_string());
+            c.op(format!("bulkrec {} 1000 {} {}", KINDS[k], nb - mb, name("bulk")));
+            c.op("ic".to_string());
+            c.op("build def 8".to_string());
+            c.op("tdump 8".to_string());
+            c.op("oracle ic 8".to_string());
+            // (c)
+            prelude(&mut c);
+            let n = *rng.pick(&[65_536u32, 65_536, 65_537, 70_000]);
+            let m = *rng.pick(&[1u32, 3]);
             for i in 0..m {
                 c.op(format!("ann {} {} {} {}", KINDS[k], 10 + i, name("linked"), if i == 0 { 2 } else { 3 }));
             }
@@ -531,11 +548,10 @@ pub fn big_records_case(rng: &mut Rng, variant: u64, thorough: bool) -> (Case, b
                     c.op(format!("addrec {} 8 {}", KINDS[j], name("unlinked")));
                 }
             }
-            ok = n <= 65_535 || m == 0;
+            ok = false;
             c.stat(&format!("records_of_one_kind_{n}"), 1);
-            if m == 0 {
-                c.stat("records_of_one_kind_all_unlinked", 1);
-            }
+            c.stat(&format!("records_of_one_kind_{nb}"), 1);
+            c.stat("records_of_one_kind_all_unlinked", 1);
         }
         1 => {
             // every kind within the limit, the sum far above it
@@ -871,6 +887,36 @@ fn c19(rng: &mut Rng, idx: usize) -> Case {
         }
         // three modifier roots; a chain of 32 below the second; terms below its end, one of them
         // also below the phenotype trunk
+        if rng.chance(1, 2) {
+            // the phenotype category above the trunk (the child of HP:118 that heads it) gets the
+            // LARGEST id of the whole ontology
+            if let Some(head) = f.edges.iter().find(|e| e.0 == 118).map(|e| e.1) {
+                let top = 9_999_999u32;
+                if !f.terms.iter().any(|t| t.0 == top) && !extra.contains(&top) {
+                    for t in f.terms.iter_mut() {
+                        if t.0 == head {
+                            t.0 = top;
+                        }
+                    }
+                    for e in f.edges.iter_mut() {
+                        if e.0 == head {
+                            e.0 = top;
+                        }
+                        if e.1 == head {
+                            e.1 = top;
+                        }
+                    }
+                    for k in 0..3 {
+                        for l in f.links[k].iter_mut() {
+                            if l.1 == head {
+                                l.1 = top;
+                            }
+                        }
+                    }
+                    c.stat("category_with_largest_id", 1);
+                }
+            }
+        }
         let (_, rest) = extra.split_at(3);
         // the three modifier roots get ADJACENT ids (no other id between two roots)
         let mut base = rng.range(2, 100) as u32;
